@@ -8,7 +8,7 @@ From Coq Require Import List NArith Arith.
 Import ListNotations.
 From YP Require Import Base.Str Lang.Ast Lang.Lexer Lang.Cst Lang.Parser Lang.ParserSound Lang.Unquote Lang.Front
   Lang.ParserMono Lang.ParserComplete Lang.ParserCanon Lang.ParserFuel Lang.ParserNorm Lang.FrontSpec
-  Comp.IR Comp.NumeralName Comp.CompileClause Lang.FrontCompile.
+  Comp.IR Comp.NumeralName Comp.CompileClause Lang.FrontCompile Lang.QuotedOpaque.
 
 (* The scan of every token rule computes exactly the longest prefix in the rule's language
    (rdef_lang is the specification of the four kinds of rule, rule_def the table of prolog.g4). *)
@@ -189,6 +189,32 @@ Theorem C10_compile_front_whole : forall s prog ir, compile_front s = Some (prog
                         Forall2 clause_code (filter (has_key k) prog) pieces) ks ir.
 Proof. exact compile_front_whole. Qed.
 Print Assumptions C10_compile_front_whole.
+
+(* Round 3.  A quoted atom is opaque: between its quotes everything is atom text (a % at the start of a line, line breaks,
+   full stops, clause text); for every body without a quote that does not end in a backslash and EVERY continuation `rest`,
+   the token stream is the STRING token followed by the token stream of `rest`, and the text is unlexable exactly when
+   `rest` is.  So what follows the closing quote - a stray separator, a bracket, a foreign character - is always seen. *)
+Theorem C10_quoted_atom_opaque : forall b rest, plain_body b ->
+  lex (quoted b ++ rest) = option_map (cons (R_STRING, quoted b)) (lex rest).
+Proof. exact lex_quoted_opaque. Qed.
+Print Assumptions C10_quoted_atom_opaque.
+
+Theorem C10_quoted_body_irrelevant : forall b1 b2 rest, plain_body b1 -> plain_body b2 ->
+  match lex (quoted b1 ++ rest), lex (quoted b2 ++ rest) with
+  | Some (t1 :: ts1), Some (t2 :: ts2) => t1 = (R_STRING, quoted b1) /\ t2 = (R_STRING, quoted b2) /\ ts1 = ts2
+  | None, None => True
+  | _, _ => False
+  end.
+Proof. exact lex_quoted_body_irrelevant. Qed.
+Print Assumptions C10_quoted_body_irrelevant.
+
+(* non-vacuity of the two: a two-line body whose second line starts with % and holds clause text; the doubled comma
+   after the closing quote reaches the parser as two COMMA tokens *)
+Example C10_quoted_nonvacuous :
+  let b := d "see" ++ [10%N] ++ d "% chapter 2. p(a) :- q, r" in
+  plain_body b /\
+  lex (quoted b ++ d ", , x") = Some [(R_STRING, quoted b); (R_COMMA, d ","); (R_COMMA, d ","); (R_ATOM, d "x")].
+Proof. exact quoted_opaque_example. Qed.
 
 (* non-vacuity: a two-clause text with a comment is accepted with both clauses; the D9 inputs are refused *)
 Example C10_nonvacuous :
